@@ -515,3 +515,12 @@ Example ex_cff2_visit :
   inst_emit_all [(SRMove 0 (of_int 5), [SInt 0; SInt 5]); (SHLine [of_fixed 98304], [SFixed 98304])]
   = [139; 144; 21; 255; 0; 1; 128; 0; 6].
 Proof. vm_compute. reflexivity. Qed.
+
+(* KNOWN FINDING (known/C12.json, class cff2-operand-range): outside `operand_range` the conversion
+   cannot keep the value and does not fail either: the whole number 33000 saturates to 32767
+   (`value as i16`); fractional values beyond the range wrap in Fixed::from (`int << 16` in i32, not
+   modelled).  C12_cff2_blended_operand is stated for values inside the range of a charstring
+   operand. *)
+Example ex_cff2_operand_range_known_finding :
+  (sv_from (33000 * UNIT), sv_from (-33000 * UNIT)) = (SInt 32767, SInt (-32768)).
+Proof. vm_compute. reflexivity. Qed.
